@@ -56,6 +56,41 @@ def pop_pred(sk):
     return (C.PopVerify(pk, C.PopProve(sk)) is True, f"honest possession proof rejected: sk={sk}")
 
 
+def pop_history_pred(ska, skb):
+    """one interpreter, POP suite, the signed message IS the public key: proof-then-signature and signature-then-proof"""
+    from py_ecc.bls import G2ProofOfPossession as POP
+    bad = []
+    pka, pkb = POP.SkToPk(ska), POP.SkToPk(skb)
+    if not POP.PopVerify(pka, POP.PopProve(ska)):
+        bad.append("honest proof rejected")
+    if not POP.Verify(pka, pka, POP.Sign(ska, pka)):
+        bad.append("honest signature on the key bytes rejected after PopVerify")
+    if not POP.Verify(pkb, pkb, POP.Sign(skb, pkb)):
+        bad.append("honest signature on the key bytes rejected")
+    if not POP.PopVerify(pkb, POP.PopProve(skb)):
+        bad.append("honest proof rejected after Verify on the key bytes")
+    return (not bad, f"POP suite history: {bad}")
+
+
+def numeric_key_pred():
+    """non-integer numeric secret keys are refused like any other non-int"""
+    from decimal import Decimal
+    from fractions import Fraction
+    from eth_utils import ValidationError
+    from py_ecc.bls import G2Basic
+    bad = []
+    for k in (5.0, 2.5, float(2 ** 200), Fraction(7, 1), Decimal(11), 3 + 0j, True and 1.0):
+        for nm, f in (("SkToPk", lambda k=k: G2Basic.SkToPk(k)), ("Sign", lambda k=k: G2Basic.Sign(k, b"m"))):
+            try:
+                f()
+                bad.append(f"{nm}({k!r}) returned")
+            except ValidationError:
+                pass
+            except Exception as e:  # noqa: BLE001
+                bad.append(f"{nm}({k!r}) raised {type(e).__name__}")
+    return (not bad, f"non-integer secret keys: {bad}")
+
+
 def reject_pred(sk):
     from eth_utils import ValidationError
     from py_ecc.bls import G2ProofOfPossession
@@ -101,6 +136,8 @@ def predicates(rng, tier, only=None):
         ps.append(Pred("pop-roundtrip", pop_pred, (sk,)))
     for sk in BAD_KEYS:
         ps.append(Pred("key-rejected", reject_pred, (sk,)))
+    ps.append(Pred("key-rejected", numeric_key_pred, ()))
+    ps.append(Pred("pop-history", pop_history_pred, (rng.randrange(1, O.BLS_R), rng.randrange(1, O.BLS_R))))
     for _ in range(6 if tier == "quick" else 60):
         ps.append(Pred("keygen-range", keygen_pred, (bytes(rng.randrange(256) for _ in range(rng.randrange(0, 129))), bytes(rng.randrange(256) for _ in range(rng.randrange(0, 65))))))
     if only:
